@@ -1,7 +1,7 @@
 """C20 - the netlist comparer accepts equal netlists and rejects structural differences."""
 from simkit.engine import Prop
 from simkit.gen_hier import hier_config, Builder, ScriptGen
-from simkit import corpus, oplang
+from simkit import corpus, oplang, textgen_verilog, design_shrink
 from simkit.oplang import need
 from simkit.oracles.canon import named, dict_diff
 from simkit.violation import Violation
@@ -23,7 +23,10 @@ def _(w, e):
 @oplang.op("compare")
 def _(w, e):
     from spydrnet.compare.compare_netlists import Comparer
-    Comparer(need(w, e["a"]), need(w, e["b"])).compare()
+    a, b = need(w, e["a"]), need(w, e["b"])
+    if e.get("swap"):
+        a, b = b, a      # (which of the two is looked into by name is the comparer's second argument)
+    Comparer(a, b).compare()
 
 
 MUTATIONS = ["direction", "port_width", "port_arrayness", "cable_width", "move_other_instance", "move_other_port",
@@ -35,6 +38,10 @@ MUTATIONS = ["direction", "port_width", "port_arrayness", "cable_width", "move_o
 def _case_twin(a, b):
     """Names that differ only in letter case (sorted first among the targets of a move)."""
     return a is not b and a.name is not None and b.name is not None and a.name != b.name and a.name.lower() == b.name.lower()
+
+
+def _is_assign(i):
+    return isinstance(i.name, str) and i.name.startswith("SDN_Assignment_")
 
 
 class Mutator:
@@ -139,6 +146,8 @@ class Mutator:
     def m_move_other_instance(self):
         for d, wr, p in self.r.sample(self._wire_pins(lambda x: kind_of(x) == "opin"), k=min(8, len(
                 self._wire_pins(lambda x: kind_of(x) == "opin")))):
+            if _is_assign(p.instance):
+                continue    # two assign cells of one width are interchangeable to the comparer, by its documentation
             for other in sorted(d.children, key=lambda o: not _case_twin(o, p.instance)):
                 if other is p.instance or other.reference is not p.instance.reference:
                     continue
@@ -218,7 +227,9 @@ class Mutator:
 
     # -- instances --------------------------------------------------------------------------
     def _insts(self):
-        return [(d, i) for d in self.defs() for i in d.children if self.hd(i) and i.reference is not None]
+        # (assign cells are left alone: the comparer is documented to match them by width only)
+        return [(d, i) for d in self.defs() for i in d.children if self.hd(i) and i.reference is not None
+                and not _is_assign(i)]
 
     def m_repoint(self):
         c = self._insts()
@@ -351,6 +362,16 @@ class C20Gen:
             b = Builder(rng, cfg)
             ev = b.build()
             a = b.netlist
+        elif cfg["source"] == "vtext":
+            # a design as the Verilog reader builds it from generated text: assign cells (SDN_VERILOG_ASSIGNMENT_<w>_<k>; the
+            # comparer's width-only matching applies to the older SDN_Assignment_ prefix), constants, aliased ports, undeclared primitives
+            d = textgen_verilog.gen_design(rng, cfg["vgen"])
+            rs = rng.getrandbits(32)
+            rd = {"ws": "plain", "comment_rate": 0.0}
+            ev.append({"op": "fs_put", "path": "sim://in.v", "text": design_shrink.render("v", d, rs, rd),
+                       "design": d, "fmt": "v", "render": rd, "render_seed": rs})
+            ev.append({"op": "parse", "path": "sim://in.v", "tag": "A"})
+            a = "e1.0"
         else:
             ev.append({"op": "fs_put_example", "name": cfg["example"], "path": "sim://in." + cfg["fmt"]})
             ev.append({"op": "parse", "path": "sim://in." + cfg["fmt"], "tag": "A"})
@@ -358,24 +379,53 @@ class C20Gen:
         ev.append({"op": "fs_config", "chunk_law": cfg["chunk_law"], "seed": 5})
         if cfg.get("no_top") and cfg["copy"] == "clone":
             ev.append({"op": "set_top", "on": a, "x": None})    # a cell library: a netlist without a top instance
+        if cfg.get("derived"):
+            # the netlist under comparison is itself a copy that was worked on: a clone of the built design that got
+            # one more named element (a cable, a port, a cell or a library) before it is cloned again and compared
+            ev.append({"op": "clone", "on": a, "tag": "A"})
+            a = "e%d.0" % (len(ev) - 1)
+            ev.append({"dyn": "derive", "on": a})
         if cfg["copy"] == "clone":
             ev.append({"op": "clone", "on": a, "tag": "B"})
-        elif cfg["source"] == "example" and cfg["copy"] == "reparse":
+        elif cfg["source"] in ("example", "vtext") and cfg["copy"] == "reparse":
             ev.append({"op": "parse", "path": "sim://in." + cfg["fmt"], "tag": "B"})
         else:
             ev.append({"op": "compose", "on": a, "path": "sim://copy." + cfg["fmt"]})
             ev.append({"op": "parse", "path": "sim://copy." + cfg["fmt"], "tag": "B"})
         self.a = a
         self.b = "e%d.0" % (len(ev) - 1)
-        ev.append({"op": "compare", "a": self.a, "b": self.b, "tag": "faithful"})
+        ev.append({"op": "compare", "a": self.a, "b": self.b, "tag": "faithful", "swap": bool(cfg.get("swap"))})
         self.script = ev
         self.k = 0
         self.queue = None
+
+    def derive(self, a):
+        """Exactly one event: a named element is added somewhere in the netlist `a` (nothing, if it offers no place)."""
+        n = self.w.h(a)
+        hd = self.w.handle_of
+        c = []
+        if n is not None:
+            c.append(("create_library", a))
+            for lib in n.libraries:
+                if hd(lib):
+                    c.append(("create_definition", hd(lib)))
+                for d in lib.definitions:
+                    if hd(d):
+                        c += [("create_cable", hd(d)), ("create_cable", hd(d)), ("create_port", hd(d))]
+        if not c:
+            return {"op": "gc"}
+        op, on = self.r.choice(c)
+        e = {"op": op, "on": on, "name": "derived_extra_element", "tag": "A"}
+        if op == "create_port":
+            e["pins"] = 1     # (the comparer's own rule refuses a port without pins on either side)
+        return e
 
     def next(self):
         if self.k < len(self.script):
             e = self.script[self.k]
             self.k += 1
+            if "dyn" in e:
+                return self.derive(e["on"])
             return dict(e)
         if self.queue is None:
             if self.p.stop or self.w.h(self.b) is None:
@@ -426,12 +476,21 @@ class C20(Prop):
             cfg["connect_rate"] = r.choice([0.3, 0.6])
             cfg["copy"] = r.choice(["clone", "roundtrip"])
             cfg["no_top"] = cfg["copy"] == "clone" and r.random() < 0.15
+            cfg["derived"] = cfg["copy"] == "clone" and r.random() < 0.3
+            cfg["swap"] = r.random() < 0.4
             cfg["twin_defs"] = r.random() < 0.4
             if cfg["twin_defs"]:
                 cfg["n_libs"] = max(2, cfg["n_libs"])
             cfg["undef_dir_rate"] = r.choice([0.0, 0.3]) if cfg["copy"] == "clone" else 0.0
             cfg["case_twin_rate"] = r.choice([0.0, 0.3]) if cfg["copy"] == "clone" else 0.0
             cfg["empty_name_rate"] = r.choice([0.0, 0.0, 0.2]) if cfg["copy"] == "clone" else 0.0
+        elif r.random() < 0.4:
+            cfg["source"] = "vtext"
+            cfg["fmt"] = "v"
+            cfg["vgen"] = {"depth": r.choice([1, 2, 3]), "max_mods": r.choice([1, 2]), "max_ports": r.choice([2, 4]),
+                           "max_wires": 3, "max_insts": r.choice([2, 4]), "max_prims": 2,
+                           "order": r.choice(["bottom_up", "top_down", "shuffled"]), "positional_rate": 0.2}
+            cfg["copy"] = r.choice(["clone", "clone", "reparse", "roundtrip"])
         else:
             cfg["source"] = "example"
             cfg["fmt"] = r.choice(["edf", "edf", "v", "v", "eblif"])
